@@ -169,70 +169,84 @@ def pass : Ans := .ok (tag "pass")
 def ood : Ans := .ok (tag "out-of-domain")
 def fail (t : String) : Ans := .ok (list [tag "fail", tag t])
 
-def wellFormedB (dir : List (JStr × Bytes)) : Bool := keysDisjointB (dirVersions dir)
-
 def rotate {α : Type} (xs : List α) : List α :=
   match xs with
   | [] => []
   | x :: rest => rest ++ [x]
 
-/-- `Thm.C05.resolve_outcome_perm_partial`, `answers_perm_partial`: the canonical answer is the same in other listing
-orders -/
-def oraclePerm (c : Content Mappings DiffModel.Diff) (req : Req) (full : Bool := false) : Ans :=
-  if !full && !wellFormedB req.dir then ood else
+def insertions {α : Type} (x : α) : List α → List (List α)
+  | [] => [[x]]
+  | y :: ys => (x :: y :: ys) :: (insertions x ys).map (y :: ·)
+
+def permutations {α : Type} : List α → List (List α)
+  | [] => [[]]
+  | x :: xs => (permutations xs).flatMap (insertions x)
+
+/-- `Thm.C05.resolve_perm`, `resolve_perm_eq`, `answers_perm`: the canonical answer is the same in other listing orders
+(`all`: in every listing order of the files) -/
+def oraclePerm (c : Content Mappings DiffModel.Diff) (req : Req) (all : Bool := false) : Ans :=
+  if all && req.dir.length > 6 then ood else
   let base := (vgAnswer c req.dir req.queries).map Sexp.toStr
-  let others := [req.dir.reverse, rotate req.dir, rotate (rotate req.dir), sortBy (fun a b => jlt a.1 b.1) req.dir,
-    (sortBy (fun a b => jlt a.1 b.1) req.dir).reverse]
+  let others := if all then permutations req.dir else
+    [req.dir.reverse, rotate req.dir, rotate (rotate req.dir), sortBy (fun a b => jlt a.1 b.1) req.dir,
+      (sortBy (fun a b => jlt a.1 b.1) req.dir).reverse]
   if others.all fun d => (vgAnswer c d req.queries).map Sexp.toStr == base then pass else fail "order"
 
-/-- `Thm.C05.lookup_names_partial`, `unknown_version` -/
+/-- `Thm.C05.lookup_names`, `unknown_version`: what every version string of a file name and every other name looks up -/
 def oracleNames (c : Content Mappings DiffModel.Diff) (req : Req) : Ans :=
-  if !wellFormedB req.dir then ood else
   match resolve c req.dir with
   | none => ood
   | some r =>
     let vss := dirVersions req.dir
     let okNames := vss.all fun vs =>
       match splitOnce TILDE vs with
-      | none => get r vs == some (Split.none, vs)
+      | none =>
+        match ownerOf vss vs with
+        | some (sp, n) => get r vs == some (sp, n)
+        | none => get r vs == some (Split.none, vs)
       | some (cl, sv) => get r cl == some (Split.first, vs) && (sv == cl || get r sv == some (Split.second, vs))
     let okUnknown := req.queries.all fun q =>
       (vss.any fun vs => (keyKind q vs).isSome) || (get r q).isNone
     if !okNames then fail "names" else if !okUnknown then fail "unknown" else pass
 
-/-- reachability in the graph the file names describe (nodes = version strings; well-formed directories only) -/
+/-- reachability in the graph the file names describe -/
 def reachFrom (edges : List (JStr × JStr)) : Nat → List JStr → List JStr
   | 0, seen => seen
   | fuel + 1, seen =>
     let next := (edges.filter fun e => seen.contains e.1 && !seen.contains e.2).map (·.2)
     if next.isEmpty then seen else reachFrom edges fuel (seen ++ dedup next)
 
-/-- `Thm.C05.no_root_is_error`, `two_roots_is_error`, `bad_diff_name_is_error`, `cycle_is_error`, `acyclic_resolves`,
-`unreachable_is_error`, `reachable_has_answer`, evaluated from the file names alone -/
+/-- `Thm.C05.resolve_error_iff` (`bad_diff_name_is_error`, `no_root_is_error`, `two_roots_is_error`,
+`ambiguous_is_error`, `second_diff_is_error`, `cycle_is_error`, `acyclic_resolves`), `unreachable_is_error`,
+`reachable_has_answer`, evaluated from the file names alone -/
 def oracleErrors (c : Content Mappings DiffModel.Diff) (req : Req) : Ans :=
-  if !wellFormedB req.dir then ood else
+  let vss := dirVersions req.dir
   let roots := dirRoots req.dir
-  let bad := req.dir.any badDiffName
   let res := resolve c req.dir
-  if bad then (if res.isNone then pass else fail "bad-name-accepted")
-  else if roots.length = 0 then (if res.isNone then pass else fail "no-root-accepted")
-  else if roots.length ≥ 2 then (if res.isNone then pass else fail "two-roots-accepted")
+  let mustFail (t : String) : Ans := if res.isNone then pass else fail t
+  if req.dir.any badDiffName then mustFail "bad-name-accepted"
+  else if roots.length = 0 then mustFail "no-root-accepted"
+  else if roots.length ≥ 2 then mustFail "two-roots-accepted"
+  else if ambiguousB vss then mustFail "ambiguous-accepted"
+  else if dupEdgesB req.dir then mustFail "second-diff-accepted"
   else
     match roots with
-    | [(rootName, rb)] =>
-      let edges := (dirEdges req.dir).map fun e => (e.parent, e.child)
+    | [(rootStr, rb)] =>
+      let rootName := nodeOf vss rootStr
+      let edges := (nodeEdges req.dir).map fun e => (e.parent, e.child)
       let reach := reachFrom edges (edges.length + 1) [rootName]
       -- a reachable cycle: an edge between reachable nodes whose child reaches its parent
       let cyc := edges.any fun e => reach.contains e.1 &&
         (reachFrom edges (edges.length + 1) [e.2]).contains e.1
-      if cyc then (if res.isNone then pass else fail "cycle-accepted")
+      if cyc then mustFail "cycle-accepted"
       else
         match res with
         | none => if (c.readRoot rb).isNone then pass else fail "rejected"
         | some r =>
+          let okNodes := sortBy jlt r.graph.nodes == sortBy jlt (dedup (nodeStrings vss))
           let okReach := r.graph.nodes.all fun n =>
             if reach.contains n then !(applyDiffs c r n).isEmpty else (applyDiffs c r n).isEmpty
-          if okReach then pass else fail "reachability"
+          if !okNodes then fail "nodes" else if okReach then pass else fail "reachability"
     | _ => ood
 
 /-- `Thm.C05.apply_is_fold`: on the model side the answer set is the set of folds by construction -/
@@ -247,7 +261,6 @@ def labelFrom : Sexp → Option (JStr × Mappings)
 
 /-- `Thm.C05.path_independent` with its hypotheses `Consistent` and `label root = root mappings` as the domain -/
 def oraclePathIndependent (c : Content Mappings DiffModel.Diff) (req : Req) (labels : List (JStr × Mappings)) : Ans :=
-  if !wellFormedB req.dir then ood else
   match resolve c req.dir with
   | none => ood
   | some r =>
@@ -278,11 +291,11 @@ def handleC05 (op : String) (args : List Sexp) : Option Ans :=
   | "oracle-fold", [b, fs, qs] => do
     let req ← reqFrom b fs qs
     pure (oracleFold (content req.tbl) req)
-  | "oracle-perm", [b, fs, qs] => do
+  | "oracle-perm-full", [b, fs, qs] => do
+    -- the name under which the former restriction-free replay op is recorded in known_findings.json
     let req ← reqFrom b fs qs
     pure (oraclePerm (content req.tbl) req)
-  | "oracle-perm-full", [b, fs, qs] => do
-    -- replay only (never generated): `oracle-perm` without the `WellFormedDir` restriction
+  | "oracle-perm-all", [b, fs, qs] => do
     let req ← reqFrom b fs qs
     pure (oraclePerm (content req.tbl) req true)
   | "oracle-names", [b, fs, qs] => do
